@@ -5,7 +5,7 @@
 (* reads only inputs (file, cfg), observed results, and reference values   *)
 (* computed from the inputs.                                               *)
 (***************************************************************************)
-EXTENDS Chiritori, Tags
+EXTENDS Chiritori, Layout, Listing
 
 TokK(r)  == r[1]
 TokS(r)  == r[2]
@@ -63,4 +63,309 @@ C07 == AtTokens =>
 TagSpansOf(tk) == LET sel == SelectSeq(tk, LAMBDA r : TokK(r) = 1) IN [i \in 1..Len(sel) |-> <<TokS(sel[i]), TokE(sel[i])>>]
 
 C08 == AtTokens => TagSpansOf(toks) = RefSpans(file, cfg.ds, cfg.de)
+
+(***************************************************************************)
+(* Common: the reference view of the current file under the current        *)
+(* configuration, and the observation points.                              *)
+(***************************************************************************)
+D == Doc(file, cfg)
+
+AtCleanReturn == pc = "returned" /\ op \in CleanOps
+AtListReturn  == pc = "returned" /\ op \in ListOps
+
+\* the source the last operation ran on (commit overwrites `file` with its result)
+LastSrc == hist[Len(hist)].src
+DL == Doc(LastSrc, cfg)
+
+Permitted(d) == UNION {PermittedOf(e) : e \in ReadyElems(d)}
+Required(d)  == UNION {RequiredOf(e) : e \in ReadyElems(d)}
+
+(***************************************************************************)
+(* C02 no over-removal, C03 no under-removal, C04 no-op identity.          *)
+(***************************************************************************)
+C02_On(t, d, o) ==
+  ~d.lenient => /\ IsSubseq(o, t)
+                /\ IsSubseq(NonWs(Without(t, Permitted(d))), NonWs(o))
+
+C03_On(t, d, o) ==
+  ~d.lenient => IsSubseq(NonWs(o), NonWs(Without(t, Required(d))))
+
+C04_On(t, d, o) ==
+  (~d.lenient /\ ReadyElems(d) = {}) => o = t
+
+C02 == AtCleanReturn => C02_On(LastSrc, DL, out)
+C03 == AtCleanReturn => C03_On(LastSrc, DL, out)
+C04 == AtCleanReturn => C04_On(LastSrc, DL, out)
+
+Decisions_On(t, d, o) == C02_On(t, d, o) /\ C03_On(t, d, o) /\ C04_On(t, d, o)
+
+(***************************************************************************)
+(* C05 expiry decision, C06 marker / skip decision.                        *)
+(***************************************************************************)
+EvalElem(nm, attrName) ==
+  [name |-> nm, attrs |-> IF res.has THEN <<[n |-> attrName, hv |-> res.hv, v |-> IF attrName = Str_to THEN res.to ELSE res.name]>> ELSE <<>>]
+
+C05_Eval ==
+  (pc = "eval_done" /\ op = "eval_time") =>
+     LET dec == TimeDecision(EvalElem(cfg.tl, Str_to), cfg) IN
+     /\ dec = "ready" => res.ready
+     /\ dec = "pending" => ~res.ready
+
+\* for a fixed source the removed set only grows as the clock advances
+C05_Mono ==
+  AtCleanReturn =>
+     \A i \in 1..(Len(hist) - 1) :
+        LET h == hist[i] IN
+        (h.op \in CleanOps /\ h.src = LastSrc /\ SameSpelling(h.cfg, cfg) /\ h.cfg.targets = cfg.targets
+         /\ LaterOrEqual(cfg.now, h.cfg.now)) => IsSubseq(NonWs(out), NonWs(h.out))
+
+C05 == C05_Eval /\ C05_Mono /\ (AtCleanReturn => Decisions_On(LastSrc, DL, out))
+
+C06_Eval ==
+  (pc = "eval_done" /\ op = "eval_marker") =>
+     LET dec == MarkerDecision(EvalElem(cfg.rm, Str_name), cfg) IN
+     /\ dec = "ready" => res.ready
+     /\ dec = "pending" => ~res.ready
+
+(***************************************************************************)
+(* The command line (C20, and the CLI part of C06): a process run yields   *)
+(* the library result for the configuration its options denote.            *)
+(***************************************************************************)
+Def_DS == <<60, 33, 45, 45, 32, 60>>                 \* <!-- <
+Def_DE == <<62, 32, 45, 45, 62>>                     \* > -->
+Def_TL == <<116, 105, 109, 101, 45, 108, 105, 109, 105, 116, 101, 100>>
+Def_RM == <<114, 101, 109, 111, 118, 97, 108, 45, 109, 97, 114, 107, 101, 114>>
+Def_OFF == <<43, 48, 48, 58, 48, 48>>
+
+Omitted(r, k) == \E i \in 1..Len(r.omit) : r.omit[i] = k
+
+\* the configuration denoted by the options of run r is the current configuration
+CfgOfOpts(r, c) ==
+  /\ Omitted(r, "ds") => c.ds = Def_DS
+  /\ Omitted(r, "de") => c.de = Def_DE
+  /\ Omitted(r, "tl") => c.tl = Def_TL
+  /\ Omitted(r, "rm") => c.rm = Def_RM
+  /\ Omitted(r, "off") => c.off = Def_OFF
+  /\ c.targets = (IF r.via \in {"file", "both"} THEN SeqToSet(r.file_targets) ELSE {})
+                 \cup (IF r.via \in {"flags", "both"} THEN SeqToSet(r.flag_targets) ELSE {})
+
+LibOpOf(r) == IF r.mode = "clean" THEN "clean"
+              ELSE IF r.mode = "list" THEN (IF r.json THEN "list_json" ELSE "list")
+              ELSE (IF r.json THEN "list_all_json" ELSE "list_all")
+
+Payload(r) == IF r.output = "stdout" THEN r.stdout ELSE IF r.output = "file" THEN r.outfile ELSE r.infile_after
+
+CliFaithful ==
+  pc = "cli_done" =>
+     LET r == res
+         me == hist[Len(hist)]
+     IN CfgOfOpts(r, cfg) =>
+          /\ r.exit = 0
+          /\ r.stdout_utf8
+          /\ (r.output # "stdout") => r.stdout = <<>>
+          /\ (r.output = "file") => r.has_outfile
+          /\ (r.input = "file" /\ r.output # "same") => (r.has_infile /\ r.infile_after = me.src)
+          /\ \A i \in 1..(Len(hist) - 1) :
+                LET h == hist[i] IN
+                (h.op = LibOpOf(r) /\ h.src = me.src /\ h.cfg = cfg) => Payload(r) = h.out
+
+C20 == CliFaithful
+C06 == C06_Eval /\ CliFaithful /\ (AtCleanReturn => Decisions_On(LastSrc, DL, out))
+
+(***************************************************************************)
+(* C09 tag grammar: recorded parse = reference parse for tags inside the   *)
+(* grammar; definite non-tags are not parsed.                              *)
+(***************************************************************************)
+AttrsAgree(obs, ref) ==
+  /\ Len(obs) = Len(ref)
+  /\ \A i \in 1..Len(ref) : obs[i].n = ref[i].n /\ obs[i].hv = ref[i].hv /\ (ref[i].hv => obs[i].v = ref[i].v)
+
+C09_Parse ==
+  pc = "tags_done" =>
+     \A i \in 1..Len(tags) :
+        LET g == tags[i]
+            p == RefParse(TagBody(g.text, cfg.ds, cfg.de), cfg.ds, cfg.de)
+        IN /\ g.st # "panic"
+           /\ p.cls = "ok" => (g.st = "ok" /\ g.name = p.name /\ AttrsAgree(g.attrs, p.attrs))
+           /\ p.cls = "text" => g.st = "none"
+
+C09 == C09_Parse /\ (AtCleanReturn => Decisions_On(LastSrc, DL, out))
+
+(***************************************************************************)
+(* C10 pairing with stack discipline, every token once and in order.       *)
+(***************************************************************************)
+TokIdxOfBS(tk, bs) == LET S == {i \in 1..Len(tk) : TokBS(tk[i]) = bs} IN IF S = {} THEN 0 ELSE CHOOSE i \in S : TRUE
+
+\* tag descriptors from the recorded tokens (C10 is relative to the tokens the code produced)
+ObsTagDescs(t, tk, ds, de) ==
+  [i \in 1..Len(tk) |->
+     IF TokK(tk[i]) = 0 THEN [k |-> 0, cls |-> "text", name |-> <<>>, attrs |-> <<>>]
+     ELSE LET p == RefParse(TagBody(Slice(t, TokS(tk[i]), TokE(tk[i])), ds, de), ds, de)
+          IN [k |-> 1, cls |-> p.cls, name |-> p.name, attrs |-> p.attrs]]
+
+RECURSIVE PopClosers(_, _, _)
+PopClosers(stack, depth, acc) ==      \* returns <<stack, acc>> after popping the frames at depth >= depth
+  IF stack # <<>> /\ stack[Len(stack)][1] >= depth
+  THEN PopClosers(SubSeq(stack, 1, Len(stack) - 1), depth, Append(acc, stack[Len(stack)][2]))
+  ELSE <<stack, acc>>
+
+RECURSIVE FlattenRows(_, _, _, _)
+FlattenRows(rows, i, stack, acc) ==
+  IF i > Len(rows) THEN PopClosers(stack, 0, acc)[2]
+  ELSE LET r == rows[i]
+           pa == PopClosers(stack, r[2], acc)
+           st2 == IF r[1] = 1 THEN Append(pa[1], <<r[2], r[4]>>) ELSE pa[1]
+       IN FlattenRows(rows, i + 1, st2, Append(pa[2], r[3]))
+
+C10_On(t, tk, rows, ds, de) ==
+  LET tg == ObsTagDescs(t, tk, ds, de)
+      odd == \E i \in 1..Len(tg) : tg[i].cls = "lenient" \/ (tg[i].cls = "ok" /\ OddName(tg[i].name))
+      obsPairs == {<<TokIdxOfBS(tk, rows[i][3]), TokIdxOfBS(tk, rows[i][4])>> : i \in {j \in 1..Len(rows) : rows[j][1] = 1}}
+      refPairs == StackPairs(tg)
+  IN /\ FlattenRows(rows, 1, <<>>, <<>>) = [i \in 1..Len(tk) |-> TokBS(tk[i])]
+     /\ ~odd => /\ obsPairs = refPairs
+                /\ \A i \in 1..Len(rows) : rows[i][2] = Depth(refPairs, TokIdxOfBS(tk, rows[i][3]))
+
+C10 == pc \in {"tree_done", "treed"} => C10_On(file, toks, tree, cfg.ds, cfg.de)
+
+(***************************************************************************)
+(* C11 - C14 layout.                                                       *)
+(***************************************************************************)
+HasReadyUnwrap(d) == UnwrappedElems(d) # {}
+
+C11_On(t, d, o) ==
+  (~d.lenient /\ BlockStyle(d) /\ WrapperLinesClean(t, d)) => LineIntegrity(t, d, o, FALSE) /\ UntouchedBlocks(t, d, o)
+C12_On(t, d, o) ==
+  (~d.lenient /\ BlockStyle(d) /\ WrapperLinesClean(t, d) /\ RegularNesting(t, d)) => Dedent(t, d, o)
+C13_On(t, d, o) ==
+  (~d.lenient /\ BlockStyle(d) /\ ~HasReadyUnwrap(d)) => LineIntegrity(t, d, o, TRUE) /\ BlankResidue(t, d, o)
+C14_On(t, d, o) ==
+  (~d.lenient /\ \A e \in UnwrappedElems(d) : e.alone) => Locality(t, d, o)
+
+C11 == AtCleanReturn => C11_On(LastSrc, DL, out)
+C12 == AtCleanReturn => C12_On(LastSrc, DL, out)
+C13 == AtCleanReturn => C13_On(LastSrc, DL, out)
+C14 == AtCleanReturn => C14_On(LastSrc, DL, out)
+
+(***************************************************************************)
+(* C15 - C17 listing.                                                      *)
+(***************************************************************************)
+MarkRanges(t, mk) == LET bp == BytePos(t) IN [i \in 1..Len(mk) |-> <<CharOfByte(bp, mk[i][1]), CharOfByte(bp, mk[i][2])>>]
+
+IsJsonOp(o) == o \in {"list_json", "list_all_json"}
+ReadyItems(its) == SelectSeq(its, LAMBDA it : it.status = "Ready")
+
+C15 ==
+  (AtListReturn /\ op \in {"list", "list_json"} /\ ~D.lenient /\ C15Space(file, D)) =>
+     LET regs == ReadyRegions(D) IN
+     /\ Len(items) = Len(regs)
+     /\ \A k \in 1..Len(items) : items[k].status = "Ready"
+     /\ op = "list_json" => (res.json_ok /\ \A k \in 1..Len(regs) : items[k].lr = LineRange(D, regs[k]))
+     /\ op = "list" => (res.split_ok /\ \A k \in 1..Len(regs) :
+                            (\A i \in 1..Len(file) : file[i] # CR) =>
+                               Highlighted(items[k].raw) = ExpandTabs(Slice(file, regs[k][1], regs[k][2])))
+     \* the regions are the ones clean deletes (markers observed inside clean on the same input)
+     /\ \A i \in 1..(Len(hist) - 1) :
+          LET h == hist[i] IN
+          /\ (h.op \in CleanOps /\ h.src = file /\ h.cfg = cfg) => MarkRanges(file, h.marks) = regs
+          /\ (h.op = op /\ h.src = file /\ h.cfg = cfg) => h.out = out          \* listing is a pure function
+
+C16 ==
+  (AtListReturn /\ ~D.lenient /\ C16Space(file, D) /\ \A i \in 1..Len(file) : file[i] # CR) =>
+     LET regs == IF op \in {"list", "list_json"}
+                 THEN [k \in 1..Len(ReadyRegions(D)) |-> <<ReadyRegions(D)[k], "Ready">>]
+                 ELSE AllRegions(D)
+     IN /\ IsJsonOp(op) =>
+            /\ res.json_ok
+            /\ Len(items) = Len(regs) =>
+                 \A k \in 1..Len(regs) :
+                    /\ items[k].lr = LineRange(D, regs[k][1])
+                    /\ IF ColumnsDetermined(file, D.br, regs[k][1])
+                       THEN items[k].block = RenderItem(file, D.br, regs[k][1])
+                       ELSE MiddleOf(items[k].block) = MiddleOf(RenderItem(file, D.br, regs[k][1]))
+        /\ ~IsJsonOp(op) =>
+            /\ res.split_ok
+            \* pretty form with colour codes stripped = JSON form, item by item
+            /\ \A i \in 1..(Len(hist) - 1) :
+                 LET h == hist[i] IN
+                 (h.src = file /\ h.cfg = cfg /\ ((op = "list" /\ h.op = "list_json") \/ (op = "list_all" /\ h.op = "list_all_json"))) =>
+                    /\ Len(items) = Len(h.items)
+                    /\ \A k \in 1..Len(items) : items[k].block = h.items[k].block /\ items[k].status = h.items[k].status
+
+C17 ==
+  (AtListReturn /\ op = "list_all_json" /\ ~D.lenient /\ C15Space(file, D)) =>
+     LET regs == AllRegions(D) IN
+     /\ res.json_ok
+     /\ Len(items) = Len(regs)
+     /\ \A k \in 1..Len(regs) : items[k].lr = LineRange(D, regs[k][1]) /\ items[k].status = regs[k][2]
+     \* Ready part identical to the plain list
+     /\ \A i \in 1..(Len(hist) - 1) :
+          LET h == hist[i] IN
+          (h.op = "list_json" /\ h.src = file /\ h.cfg = cfg) =>
+             LET ri == ReadyItems(items) IN
+             Len(ri) = Len(h.items) /\ \A k \in 1..Len(ri) : ri[k].lr = h.items[k].lr /\ ri[k].block = h.items[k].block
+
+(***************************************************************************)
+(* C18 spelling independence.                                              *)
+(***************************************************************************)
+RenameName(n, c1, c2) ==
+  IF n = c1.tl THEN c2.tl ELSE IF n = c1.rm THEN c2.rm
+  ELSE IF n = <<SLASH>> \o c1.tl THEN <<SLASH>> \o c2.tl
+  ELSE IF n = <<SLASH>> \o c1.rm THEN <<SLASH>> \o c2.rm ELSE n
+
+RespellTag(tag, c1, c2) ==
+  LET body == TagBody(tag, c1.ds, c1.de)
+      i == SkipSet(body, 1, {SP})
+      e == WordEnd(body, i)
+  IN c2.ds \o SubSeq(body, 1, i - 1) \o RenameName(SubSeq(body, i, e - 1), c1, c2) \o SubSeq(body, e, Len(body)) \o c2.de
+
+Respell(t, c1, c2) ==
+  LET tk == RefTokens(t, c1.ds, c1.de) IN
+  ConcatAll([i \in 1..Len(tk) |-> IF tk[i].k = 0 THEN Slice(t, tk[i].s, tk[i].e)
+                                    ELSE RespellTag(Slice(t, tk[i].s, tk[i].e), c1, c2)])
+
+\* the delimiter strings of both spellings occur nowhere but as the delimiters of tags
+CleanlySpelled(t, c1, c2) ==
+  LET tk == RefTokens(t, c1.ds, c1.de) IN
+  \A i \in 1..Len(tk) :
+     LET x == IF tk[i].k = 0 THEN Slice(t, tk[i].s, tk[i].e) ELSE TagBody(Slice(t, tk[i].s, tk[i].e), c1.ds, c1.de)
+     IN \A dl \in {c1.ds, c1.de, c2.ds, c2.de} : \A ch \in SeqToSet(dl) : ch \in {SP, DASH} \/ \A j \in 1..Len(x) : x[j] # ch
+
+C18 ==
+  (pc = "returned" /\ op \in {"clean", "list_json"}) =>
+     \A i \in 1..(Len(hist) - 1) :
+        LET h == hist[i] IN
+        (h.op = op /\ h.cfg.now = cfg.now /\ h.cfg.targets = cfg.targets /\ h.cfg.off = cfg.off
+         /\ CleanlySpelled(h.src, h.cfg, cfg) /\ Respell(h.src, h.cfg, cfg) = LastSrc) =>
+           IF op = "clean" THEN out = Respell(h.out, h.cfg, cfg)
+           ELSE /\ Len(items) = Len(h.items)
+                /\ \A k \in 1..Len(items) : items[k].lr = h.items[k].lr /\ items[k].status = h.items[k].status
+
+(***************************************************************************)
+(* C19 idempotence and composition over time.                              *)
+(***************************************************************************)
+DelimsOnlyInTags(t, c) ==
+  LET tk == RefTokens(t, c.ds, c.de) IN
+  \A i \in 1..Len(tk) : tk[i].k = 0 => LET x == Slice(t, tk[i].s, tk[i].e) IN ~Occurs(x, c.ds) /\ ~Occurs(x, c.de)
+
+Commits == SelectSeq(hist, LAMBDA h : h.op = "commit")
+
+\* the commits so far form one chain: each ran on the previous result, clock and targets only grew
+Chained(cs) ==
+  \A k \in 1..(Len(cs) - 1) :
+     /\ cs[k + 1].src = cs[k].out
+     /\ SameSpelling(cs[k].cfg, cs[k + 1].cfg)
+     /\ ClockOnlyAdvances(cs[k].cfg, cs[k + 1].cfg) /\ TargetsOnlyGrow(cs[k].cfg, cs[k + 1].cfg)
+
+C19 ==
+  /\ (pc = "returned" /\ op = "clean" /\ Len(hist) >= 2) =>
+        LET h == hist[Len(hist) - 1] IN
+        (h.op = "commit" /\ h.cfg = cfg /\ h.out = LastSrc /\ DelimsOnlyInTags(h.src, cfg) /\ ~Doc(h.src, cfg).lenient)
+           => out = LastSrc                                                              \* idempotence
+  /\ (pc = "returned" /\ op = "commit") =>
+        LET cs == Commits IN
+        (Chained(cs) /\ DelimsOnlyInTags(cs[1].src, cfg) /\ ~Doc(cs[1].src, cfg).lenient) =>
+           \A i \in 1..Len(hist) :
+              LET h == hist[i] IN
+              (h.op = "clean" /\ h.src = cs[1].src /\ h.cfg = cfg) => NonWs(out) = NonWs(h.out)   \* composition
 =============================================================================
